@@ -1,10 +1,10 @@
 package checks
 
 import (
-	"io"
 	"bytes"
 	"encoding/json"
 	"fmt"
+	"io"
 	iofs "io/fs"
 	"os"
 	"os/exec"
@@ -471,6 +471,28 @@ func runMkfsCase(c *mkfsCase) (sig, msg, outcome string) {
 					}
 				}
 				fail(cls+"|"+tag+"|"+fileClass(p), fmt.Sprintf("%s: %d bytes read without error, %d put in, first difference at %d", p, len(b), len(want), where))
+			}
+			// the same file through ONE handle that jumps around: the last third first, then back to the start, then the
+			// middle (files of several extents: a handle that remembers where it was must still find earlier extents)
+			if rerr == nil && len(want) > 3*4096 && len(want) < 16<<20 {
+				if f, e := fs.OpenFile(p, os.O_RDONLY); e == nil {
+					third := int64(len(want) / 3)
+					for _, seg := range [][2]int64{{2 * third, int64(len(want)) - 2*third}, {0, third}, {third - 100, third + 200}, {0, 50}} {
+						buf := make([]byte, seg[1])
+						if _, e := f.Seek(seg[0], io.SeekStart); e != nil {
+							break
+						}
+						n, e := io.ReadFull(f, buf)
+						if e != nil && e != io.EOF && e != io.ErrUnexpectedEOF {
+							break // an error is always acceptable
+						}
+						if n == len(buf) && !bytes.Equal(buf, want[seg[0]:seg[0]+seg[1]]) {
+							fail("content-after-seek|"+tag+"|"+fileClass(p), fmt.Sprintf("%s: %d bytes read at offset %d through a handle that had read elsewhere before differ from what was put in (first difference at +%d)", p, n, seg[0], firstDiff(buf, want[seg[0]:seg[0]+seg[1]])))
+							break
+						}
+					}
+					f.Close()
+				}
 			}
 			if m, ok := t.modes[p]; ok && modeBits(fi.Mode()) != m {
 				fail("mode|"+tag, fmt.Sprintf("%s: mode %o, set to %o", p, modeBits(fi.Mode()), m))
